@@ -153,3 +153,36 @@ m("c05-swallow-constructor-error", "C05", "daemon/core/config.py",
   "                        try:\n                            prev_item = item >> prev_item\n                        except ValueError:\n                            continue\n")
 m("c05-construct-twice", "C05", "daemon/core/config.py", "                    if isinstance(prev_item, Partial):  # got form __type__\n                        prev_item = prev_item.__construct__()", "                    if isinstance(prev_item, Partial):  # got form __type__\n                        prev_item.__construct__()\n                        prev_item = prev_item.__construct__()")
 m("c05-kwargs-order-lost", "C05", "daemon/config/mapping.py", "        mapping = {**mapping, **kwargs}", "        mapping = {**kwargs, **{k: v for k, v in mapping.items() if k != 'name'}}")
+# ---- C18
+m("c18-full-loader", "C18", "daemon/core/config.py", "from yaml import SafeLoader, BaseLoader\n", "from yaml import FullLoader as SafeLoader, BaseLoader\n")
+m("c18-unsafe-loader", "C18", "daemon/core/config.py", "from yaml import SafeLoader, BaseLoader\n", "from yaml import UnsafeLoader as SafeLoader, BaseLoader\n")
+m("c18-call-with-yaml-loader", "C18", "daemon/core/config.py", "            loader=COBalDLoader,  # type: ignore\n            plugins=config_plugins,", "            loader=__import__('yaml').Loader,\n            plugins=config_plugins,")
+m("c18-unknown-tags-ignored", "C18", "daemon/core/config.py", '''class COBalDLoader(SafeLoader):
+    """Loader with access to COBalD configuration constructors"""
+''', '''class COBalDLoader(SafeLoader):
+    """Loader with access to COBalD configuration constructors"""
+
+
+COBalDLoader.add_multi_constructor("!", lambda loader, suffix, node: None)
+''')
+m("c18-python-name-fallback", "C18", "daemon/core/config.py", '''class COBalDLoader(SafeLoader):
+    """Loader with access to COBalD configuration constructors"""
+''', '''class COBalDLoader(SafeLoader):
+    """Loader with access to COBalD configuration constructors"""
+
+
+def _by_name(loader, suffix, node):
+    from ..config.mapping import Translator
+    return Translator.load_name(suffix)
+
+
+COBalDLoader.add_multi_constructor("tag:yaml.org,2002:python/name:", _by_name)
+''')
+m("c18-safe-typed-variants", "C18", "daemon/core/config.py", '''class COBalDLoader(SafeLoader):
+    """Loader with access to COBalD configuration constructors"""
+''', '''class COBalDLoader(SafeLoader):
+    """Loader with access to COBalD configuration constructors"""
+
+
+COBalDLoader.add_constructor("tag:yaml.org,2002:python/tuple", lambda loader, node: tuple(loader.construct_sequence(node)))
+''')
